@@ -346,7 +346,11 @@ struct DocSim {
   }
 
   std::string key() const {
-    std::string k = "orph" + std::to_string(orphan_blocks) + "/" + std::to_string(orphan_bytes) + "|";
+    // the ledger is part of the state the oracle looks at: two histories that reach the same documents but
+    // differ in what is still allocated (a leak in one of them) must not be merged
+    size_t lbytes = 0;
+    for (auto& kv : ta::ledger().live) lbytes += kv.second;
+    std::string k = "orph" + std::to_string(orphan_blocks) + "/" + std::to_string(orphan_bytes) + "|led" + std::to_string(ta::ledger().live.size()) + "/" + std::to_string(lbytes) + "|";
     for (int i = 0; i < 2; i++) {
       k += alive[i] ? "A" : "-";
       if (alive[i]) {
